@@ -239,3 +239,162 @@ pub fn oracle_c01(ex: &Exec, acc: &mut Acc) -> Verdict {
         },
     }
 }
+
+// ------------------------------------------------------------------------------------------------
+// C06 comments
+
+pub fn oracle_c06(ex: &Exec, acc: &mut Acc) -> Verdict {
+    let py = typst_syntax::parse(ex.y);
+    let sx = crate::streams::comment_word_stream(ex.px);
+    let ncom = crate::streams::comments_only(&sx).len();
+    if ncom == 0 {
+        // nothing to observe for this property
+        let sy = crate::streams::comment_word_stream(&py);
+        if crate::streams::comments_only(&sy).is_empty() {
+            return Verdict::Held { nontrivial: false };
+        }
+        return Verdict::Violated { oracle: "comment-stream", detail: "output contains a comment although the input has none".into() };
+    }
+    acc.count("comments_tracked", ncom as u64);
+    let sy = crate::streams::comment_word_stream(&py);
+    match crate::nf::first_diff(&sx, &sy) {
+        None => Verdict::Held { nontrivial: ex.y != ex.x },
+        Some((i, a, b)) => {
+            let cx: Vec<&String> = crate::streams::comments_only(&sx);
+            let cy: Vec<&String> = crate::streams::comments_only(&sy);
+            let kind = if cx.len() != cy.len() {
+                format!("comment count {} -> {}", cx.len(), cy.len())
+            } else if cx != cy {
+                "comment text/order changed".to_string()
+            } else {
+                "comment moved across a word (or words changed)".to_string()
+            };
+            Verdict::Violated {
+                oracle: "comment-stream",
+                detail: format!("{}; streams differ at {}: input […{}…] output […{}…]", kind, i, a, b),
+            }
+        }
+    }
+}
+
+// ------------------------------------------------------------------------------------------------
+// C10 literals
+
+pub fn oracle_c10(ex: &Exec, acc: &mut Acc) -> Verdict {
+    let py = typst_syntax::parse(ex.y);
+    let lx = crate::streams::literal_stream(ex.px);
+    let ly = crate::streams::literal_stream(&py);
+    acc.count("literals_compared", lx.len() as u64);
+    match crate::nf::first_diff(&lx, &ly) {
+        None => Verdict::Held { nontrivial: ex.y != ex.x && !lx.is_empty() },
+        Some((i, a, b)) => Verdict::Violated {
+            oracle: "literal-stream",
+            detail: format!("literal sequences differ at {}: input […{}…] output […{}…]", i, a, b),
+        },
+    }
+}
+
+// ------------------------------------------------------------------------------------------------
+// C09 math whitespace
+
+pub fn oracle_c09(ex: &Exec, acc: &mut Acc) -> Verdict {
+    let gx = crate::streams::math_gaps(ex.px);
+    if gx.is_empty() {
+        return Verdict::Held { nontrivial: false };
+    }
+    let py = typst_syntax::parse(ex.y);
+    let gy = crate::streams::math_gaps(&py);
+    acc.count("math_nodes_paired", gx.len() as u64);
+    match crate::nf::first_diff(&gx, &gy) {
+        None => Verdict::Held { nontrivial: ex.y != ex.x },
+        Some((i, a, b)) => Verdict::Violated {
+            oracle: "math-gaps",
+            detail: format!(
+                "math gap sequences differ at node {} ('|' none, '_' space, '/' newline): input […{}…] output […{}…]",
+                i, a, b
+            ),
+        },
+    }
+}
+
+// ------------------------------------------------------------------------------------------------
+// C08 prose
+
+pub fn oracle_c08(ex: &Exec, acc: &mut Acc) -> Verdict {
+    let py = typst_syntax::parse(ex.y);
+    let ax = crate::streams::all_prose(ex.px);
+    let ay = crate::streams::all_prose(&py);
+    let nlines: usize = ax.iter().map(|l| l.len()).sum();
+    let nprose: usize = ax.iter().map(|l| l.iter().filter(|x| x.has_prose).count()).sum();
+    acc.count("markup_nodes_paired", ax.len() as u64);
+    acc.count("prose_lines_compared", nprose as u64);
+    if ax.len() != ay.len() {
+        return Verdict::Violated {
+            oracle: "prose-lines",
+            detail: format!("number of markup nodes changed: {} -> {}", ax.len(), ay.len()),
+        };
+    }
+    for (mi, (lx, ly)) in ax.iter().zip(ay.iter()).enumerate() {
+        if lx.len() != ly.len() {
+            let tx: Vec<&str> = lx.iter().map(|l| l.text.as_str()).collect();
+            let ty: Vec<&str> = ly.iter().map(|l| l.text.as_str()).collect();
+            return Verdict::Violated {
+                oracle: "prose-lines",
+                detail: format!("markup node {}: line count {} -> {}: {:?} vs {:?}", mi, lx.len(), ly.len(), util::clip(&format!("{:?}", tx), 200), util::clip(&format!("{:?}", ty), 200)),
+            };
+        }
+        for (li, (a, b)) in lx.iter().zip(ly.iter()).enumerate() {
+            if a.text != b.text {
+                return Verdict::Violated {
+                    oracle: "prose-lines",
+                    detail: format!("markup node {} line {}: text {:?} -> {:?}", mi, li, a.text, b.text),
+                };
+            }
+            if a.sep != b.sep {
+                return Verdict::Violated {
+                    oracle: "prose-lines",
+                    detail: format!(
+                        "markup node {} line {} ({:?}): separator {} -> {} (0 end, 1 line break, n paragraph break with n line feeds)",
+                        mi, li, util::clip(&a.text, 40), a.sep, b.sep
+                    ),
+                };
+            }
+            if a.has_text && !a.multiline_src && b.multiline_src {
+                return Verdict::Violated {
+                    oracle: "prose-one-line",
+                    detail: format!("markup node {} line {} ({:?}) was one source line but the output folds it over several lines", mi, li, util::clip(&a.text, 60)),
+                };
+            }
+        }
+    }
+    Verdict::Held { nontrivial: nprose > 0 && ex.y != ex.x && nlines > 0 }
+}
+
+pub fn oracle_for(prop: &str) -> Option<(&'static Oracle, bool)> {
+    Some(match prop {
+        "C01" => (&oracle_c01, true),
+        "C03" => (&oracle_c03, false),
+        "C04" => (&oracle_c04, true),
+        "C06" => (&oracle_c06, true),
+        "C08" => (&oracle_c08, true),
+        "C09" => (&oracle_c09, true),
+        "C10" => (&oracle_c10, true),
+        "C11" => (&oracle_c11, true),
+        _ => return None,
+    })
+}
+
+/// Re-evaluate a tree property on one (input, cfg): Some(true) = violated, Some(false) = held, None = inconclusive.
+pub fn violated(prop: &str, input: &str, cfg: Cfg) -> Option<bool> {
+    let (oracle, per_output) = oracle_for(prop)?;
+    let chk = TreeCheck { property: prop, per_output, oracle };
+    let mut acc = Acc::new();
+    run_case(&chk, &Case::new(input, "recheck"), &[cfg], &mut acc);
+    if !acc.violations.is_empty() {
+        Some(true)
+    } else if acc.held > 0 {
+        Some(false)
+    } else {
+        None
+    }
+}
